@@ -8,6 +8,7 @@ prop("C14", pkg="c14",
           "Non-trivial = flags differ from the default and the type has a map, RawMessage, string or interface (numbers: any flag set); distinct = FNV-64 of the case.",
      quick=dict(shards=16, scale=1.5, timeout=900),
      thorough=dict(shards=16, rounds=8, scale=1.5, timeout=3000),
+     fuzz=[('FuzzAppendFlags', 60)],
      technique="rapid property-based metamorphic testing over flag subsets (default-flag output, encoding/json generic decode, literal numeric value as oracles)",
      level_text="Exploration: metamorphic relations between flag settings checked on a few hundred thousand generated values per quick run, all 8 AppendFlags "
                 "subsets and 8 representative ParseFlags subsets drawn uniformly, all 16 number-flag subsets for every literal.",
